@@ -188,7 +188,9 @@ def _drive(rep: Report, tier: str, seed: int, P: Any, d: Path, futs: dict[str, A
     # ---- 2a. exhaustive family
     # quick: single operations on the writer's own .zst; every (first, second) pair on the plain copy
     # (the lazy offset table does not depend on the container); reduced operation set elsewhere.
-    ops_small = P.all_ops(max_n, (5, 8)) + [P.op("fwd", 1), P.op("fwd", 2)]
+    ops_small = P.all_ops(max_n, (8,)) + [P.op("fwd", 1), P.op("fwd", 2), P.op("fwd", 5), P.op("fwd", 5, 0, 1),
+                                          P.op("rev", 5), P.op("head", 5, 1), P.op("head", 2, 2),
+                                          P.op("tail", 5, 1), P.op("tail", 2, 2)]
     for levels in _enum_logs(lmax):
         w = get_enum(levels)
         c0 = P.Container(w, "zst", "all", d)
@@ -214,7 +216,7 @@ def _drive(rep: Report, tier: str, seed: int, P: Any, d: Path, futs: dict[str, A
             for f in firsts:
                 batch.add(w, P.run_reader_session(c, [f, *probes]), meta("reader", c, "enum-probe"))
         # hr: every mode x threshold (and omitted) x count (and omitted)
-        for p in ((2, 5, 8, -1) if quick else (*THRESHOLDS, -1)):
+        for p in ((5, 8, -1) if quick else (*THRESHOLDS, -1)):
             hr_ops = [P.op("fwd", p), P.op("rev", p)]
             hr_ops += [P.op(m, p, n) for m in ("head", "tail") for n in ((0, 1, 3, -1) if quick else (0, 1, 2, 3, 4, 5, -1))]
             for o in hr_ops:
@@ -222,8 +224,8 @@ def _drive(rep: Report, tier: str, seed: int, P: Any, d: Path, futs: dict[str, A
                           meta("hr", c0, "enum-hr"))
         for kind, prefix in other_containers:
             c = P.Container(w, kind, prefix, d)
-            for o in (P.op("fwd", 8), P.op("fwd", 5), P.op("rev", 8), P.op("head", 5, 1),
-                      P.op("tail", 8, 1), P.op("tail", 2, 4)):
+            for o in (P.op("fwd", 5), P.op("rev", 8), P.op("head", 5, 1), P.op("tail", 8, 1))\
+                    + (() if quick else (P.op("fwd", 8), P.op("tail", 2, 4))):
                 batch.add(w, P.run_hr_session(c, o), meta("hr", c, "enum-hr"))
     rep.extra["enumerated"] = {"log_length": f"0..{lmax}", "levels": list(ENUM_LEVELS), "ops": len(ops_all),
                                "ops_reduced": len(ops_small), "first_ops": len(firsts),
@@ -366,7 +368,7 @@ def _drive(rep: Report, tier: str, seed: int, P: Any, d: Path, futs: dict[str, A
     rep.extra["exhaustive_space"] = (
         f"logs of length 0..{lmax} over 3 levels x the {len(ops_all)} operations of the model on a fresh reader "
         "(writer's .zst) and every (first, second) pair with first in "
-        + ("the 10 state-changing operations, second in the reduced set (thresholds 5, 8)" if quick else
+        + ("the 10 state-changing operations, second in the reduced set (threshold 8 fully, 1/2/5 on one operation per mode)" if quick else
            "all operations for length <= 3 (10 state-changing ones for length 4), second in all operations")
         + " on the plain copy; single operations + probe sessions on the other containers; the random family "
           "and hr argv spellings are sampled")
